@@ -10,6 +10,7 @@ def run(ctx):
     M.lit1_null_patterns(ctx)
     W.flt2_exact_narrowing_test(ctx)
     M.nul1_null_map_never_ignored(ctx)
+    M.nul2_bitmap_ones_fill_whole_bytes_only(ctx)
     return ctx.finish(
         'Syntax-tree rules over the column builders: in every narrow branch the range bound, the '
         'element type and the encoding tag agree (a tag that disagrees with the stored element type '
